@@ -109,3 +109,23 @@ Proof.
   eapply end_block_set_spec; [apply (di_rank _ D)|apply A|exact E].
 Qed.
 Print Assumptions C13_complete.
+
+(* ---- the validator set is the top-K ---- *)
+(* the ranking list is sorted highest power first ... *)
+Theorem C13_ranking_sorted s : Sorted (flip rank_le) (rank_desc s).
+Proof. exact (rank_desc_sorted s). Qed.
+Print Assumptions C13_ranking_sorted.
+
+(* ... and after EndBlocker, in every state a block-structured history reaches, the Active validators are
+   exactly the first max-validators entries of that list *)
+Theorem C13_top_k p rem goat gas acc ops s' ups :
+  0 <= lp_slash_down p <= one18 -> 0 <= lp_slash_double p <= one18 -> Forall wf_op ops ->
+  let s := lk_run (empty_lstate p rem goat gas acc) ops in
+  end_block s = Ok (s', ups) ->
+  forall a, (exists v, l_val s' !! a = Some v /\ v_status v = Active) <->
+            In a (map snd (firstn (Z.to_nat (lp_max_validators (l_params s))) (rank_desc s))).
+Proof.
+  intros H1 H2 W s E. destruct (reachable_all p rem goat gas acc ops H1 H2 W) as [D [A M]].
+  eapply end_block_top_k; [apply (di_rank _ D)|exact A|exact E].
+Qed.
+Print Assumptions C13_top_k.
